@@ -1,0 +1,43 @@
+//go:build verif
+
+package peer
+
+// Contracts for govc (see /verif/DESIGN.md). Compiled only with -tags verif.
+
+// C21 kernel (persist before send): in every round of processReady the raft messages of a
+// Ready leave, and the Ready is advanced, only after handleReady - which persists hard
+// state, entries and snapshot - succeeded for that very Ready. Ghost state: lastReadyFailed
+// is handleReady's latest outcome; badSends / badAdvances count sends and advances issued
+// after a failed handleReady.
+//@ ghost var lastReadyFailed bool
+//@ ghost var readySends Int
+//@ ghost var badSends Int
+//@ ghost var badAdvances Int
+//@ func (*Peer).handleReady
+//@   trusted
+//@   ghost lastReadyFailed = result != nil
+//@   modifies heap
+//@ func (*Peer).sendMessages
+//@   trusted
+//@   ghost readySends = readySends + 1
+//@   ghost badSends = (lastReadyFailed ? badSends + 1 : badSends)
+//@   modifies heap
+//@ func go.etcd.io/raft/v3::(*RawNode).HasReady
+//@   trusted
+//@   modifies nothing
+//@ func go.etcd.io/raft/v3::(*RawNode).Ready
+//@   trusted
+//@   modifies heap
+//@ func go.etcd.io/raft/v3::(*RawNode).Advance
+//@   trusted
+//@   ghost badAdvances = (lastReadyFailed ? badAdvances + 1 : badAdvances)
+//@   modifies heap
+
+//@ func (*Peer).processReady
+//@   property C21
+//@   requires p != nil
+//@   requires [fresh-round] !lastReadyFailed
+//@   ensures [no-send-after-failed-persist] badSends == old(badSends)
+//@   ensures [no-advance-after-failed-persist] badAdvances == old(badAdvances)
+//@   ensures [error-means-nothing-sent-for-that-ready] result != nil ==> lastReadyFailed
+//@   loop 1 invariant [rounds] p != nil && !lastReadyFailed && badSends == old(badSends) && badAdvances == old(badAdvances)
